@@ -16,8 +16,9 @@ package ledger
 //     + status Offline without vote key x last-seen x IncentiveEligible
 // (lag = floor(20 * totalOnlineStake / stake) computed per population; the last-seen
 // round is stored in LastHeartbeat or LastProposed alternately, the other one smaller),
-// population j giving slot k the attribute combination (j + 24k) mod 72, so every
-// (stake class, attribute combination) pair occurs. Plus a "ghost" candidate that does not
+// population j giving slot k the attribute combination (j + 24k) mod 72 (thorough tier:
+// also shifts 8 and 55, 216 populations), so every (stake class, attribute combination)
+// pair occurs. Plus a "ghost" candidate that does not
 // exist, and 33 filler accounts (Offline with keys that expired at round 1).
 // Per population the block for round r is built by the generator (GenerateBlock), then
 //   - every pair of subsets of the 4 candidates is placed in ExpiredParticipationAccounts /
@@ -41,7 +42,7 @@ package ledger
 // (stake look-back beyond genesis), accounts modified inside the evaluated block,
 // rewards (switched off).
 //
-// Mutants shown DETECTED (bin/mut, quick tier):
+// Mutants, all DETECTED by the quick tier (bin/mut ... --only):
 //   M1 eval.go isAbsent: `lastSeen+basics.Round(allowableLag) < current` -> `<=`
 //   M2 eval.go validateExpiredOnlineAccounts: `acctData.VoteLastValid >= currentRound` -> `>`
 //   M3 eval.go validateAbsentOnlineAccounts: IncentiveEligible check dropped
@@ -180,13 +181,13 @@ const (
 )
 
 // c27makePop builds population j (harness facts only; the ledger is built by setup).
-func c27makePop(j int, r uint64, dom []c27attr) *c27pop {
-	p := &c27pop{name: fmt.Sprintf("pop%02d", j), r: r}
+func c27makePop(j int, r uint64, dom []c27attr, shift int) *c27pop {
+	p := &c27pop{name: fmt.Sprintf("pop%02d-s%d", j, shift), r: r}
 	stakes := [3]uint64{c27tiny, c27third, c27most}
 	names := [3]string{"tiny", "third", "most"}
 	attrs := [3]c27attr{}
 	for k := 0; k < 3; k++ {
-		attrs[k] = dom[(j+24*k)%len(dom)]
+		attrs[k] = dom[(j+shift*k)%len(dom)]
 		if attrs[k].Status == c27Online {
 			p.total += stakes[k]
 		}
@@ -463,8 +464,11 @@ func TestVerif_C27(t *testing.T) {
 	const round = 70
 	dom := c27domain()
 	var pops []*c27pop
-	for j := 0; j < len(dom); j++ {
-		pops = append(pops, c27makePop(j, round, dom))
+	shifts := ve.Pick([]int{24}, []int{24, 8, 55}) // slot k of population j gets attribute combination (j + shift*k) mod 72
+	for _, sh := range shifts {
+		for j := 0; j < len(dom); j++ {
+			pops = append(pops, c27makePop(j, round, dom, sh))
+		}
 	}
 	long := c27makeLongPop(700)
 	pops = append(pops, long)
@@ -574,7 +578,7 @@ func TestVerif_C27(t *testing.T) {
 	}
 	sort.Strings(keys)
 	r.Set("outcome_classes", tally.m)
-	r.Note("%d populations (72 candidate populations at round %d + 1 long population at round 700), %d list placements", len(pops), round, len(jobs))
+	r.Note("%d populations (%d candidate populations at round %d + 1 long population at round 700), %d list placements", len(pops), len(pops)-1, round, len(jobs))
 	if len(pops) > 5 {
 		r.Sample(c27case{Pop: pops[5].name, Expired: []string{"tiny"}, Absent: []string{"most"}})
 		r.Sample(pops[5].cands)
@@ -582,7 +586,7 @@ func TestVerif_C27(t *testing.T) {
 	r.Assume("no heartbeat challenge is active at the evaluated rounds (70 and 700 < ChallengeInterval); the challenge path is not exercised")
 	r.Assume("agreement stake of a candidate = its genesis balance if Online at genesis (rounds < 320 look back to genesis); total online stake = sum over accounts Online at genesis, cross-checked once per population against Ledger.OnlineCirculation")
 	r.Assume("account attributes are installed directly in the genesis allocation; the blocks leading to round r-1 carry empty participation-update lists")
-	n := r.Finish(ve.Coverage{Rule: "72 genesis populations of 3 candidates (stake tiny/third/most; status x VoteLastValid {r-1,r,r+1,0} x last-seen {0, threshold-1, threshold, threshold+1} x eligible, diagonal assignment so that every (stake, attribute) pair occurs) + ghost + expired fillers: every pair of subsets of the 4 candidates as (expired, absent) lists, duplicated entries, 32/33-entry lists, in an otherwise valid generated block re-evaluated with validation; plus one population with 34 absent accounts at round 700 for the absent-list limit; oracle = harness big.Int evaluation of the expiry rule and of 20*total < (r-lastSeen)*stake", Exhaustive: true})
+	n := r.Finish(ve.Coverage{Rule: fmt.Sprintf("%d", len(all)-1) + " genesis populations of 3 candidates (stake tiny/third/most; status x VoteLastValid {r-1,r,r+1,0} x last-seen {0, threshold-1, threshold, threshold+1} x eligible, diagonal assignment so that every (stake, attribute) pair occurs) + ghost + expired fillers: every pair of subsets of the 4 candidates as (expired, absent) lists, duplicated entries, 32/33-entry lists, in an otherwise valid generated block re-evaluated with validation; plus one population with 34 absent accounts at round 700 for the absent-list limit; oracle = harness big.Int evaluation of the expiry rule and of 20*total < (r-lastSeen)*stake", Exhaustive: true})
 	if n > 0 {
 		t.Fatal("violations")
 	}
